@@ -39,6 +39,7 @@ SHIM_ASSUMPTIONS = {
     'tokstream.rs': 'A-stream: Peekable<TokenIterator> (query lexer) is the remaining token sequence, then Token::Eof for ever (the Eof-forever part is proved for TokenIterator::next in unit lexer)',
     'digitchars.rs': 'A-std: char::from_digit, String::insert/len as documented; A-indexmap: IndexSet is an insertion-ordered set',
     'btreeset.rs': 'A-btree: BTreeSet get/insert/remove/contains as documented',
+    'fmtlog.rs': 'A-fmt: a Formatter is the sequence of format literals written to it; format arguments are dropped (N6) except where a template substitution writes the argument string itself',
     'formula_stream.rs': 'A-stream: Peekable<TokenIterator> (formula lexer) is the remaining token sequence, then None',
     'chrono.rs': 'A-chrono: chrono Duration is an integer nanosecond count; DateTime checked_* never panic; FixedOffset::east_opt is Some iff |secs| < 86400',
     'fmt.rs': 'A-fmt: Formatter appends pieces in order',
